@@ -301,7 +301,7 @@ old_cases = st.fixed_dictionaries({"pair": st.integers(0, 20), "session": sessio
 
 
 def checks(tier):
-    n = {"quick": (1200, 1600), "thorough": (20000, 40000)}.get(tier, (10, 10))
+    n = {"quick": (1200, 1600), "thorough": (12000, 16000)}.get(tier, (10, 10))
     return [
         Check("registry_laws", fn_registry, enum=registry_cases, reset=False),
         Check("versioned_dict", fn_versioned_dict, strategy=vd_cases, examples=n[0], reset=False),
